@@ -56,33 +56,44 @@ impl ImportResolver for CallbackImportResolver {
 			ResolvePath::Str(s) => CString::new(s.as_bytes()).unwrap(),
 			ResolvePath::Path(p) => unsafe { crate::unparse_path(p) },
 		};
-		let found_here: *mut c_char = null_mut();
+		let mut found_here: *mut c_char = null_mut();
 
-		let mut buf = null_mut();
+		let mut buf: *mut c_char = null_mut();
 		let mut buf_len = 0;
-		let success = unsafe {
+		let result = unsafe {
 			(self.cb)(
 				self.ctx,
 				base.as_ptr(),
 				rel.as_ptr(),
-				&mut found_here.cast_const(),
+				(&raw mut found_here).cast(),
 				&raw mut buf,
 				&raw mut buf_len,
 			)
 		};
-		let buf_slice: &[u8] = unsafe { std::slice::from_raw_parts(buf.cast(), buf_len) };
-		unsafe {
-			std::alloc::dealloc(
-				buf.cast(),
-				Layout::from_size_align(buf_len, 1).expect("layout is valid"),
-			);
+		let buf_intern = if buf.is_null() {
+			Vec::new()
+		} else {
+			// Copy first, the buffer is owned by us and is freed right after
+			let copy = unsafe { std::slice::from_raw_parts(buf.cast::<u8>(), buf_len) }.to_vec();
+			unsafe {
+				std::alloc::dealloc(
+					buf.cast(),
+					Layout::from_size_align(buf_len.max(1), 1).expect("layout is valid"),
+				);
+			};
+			copy
 		};
-		let buf_intern = buf_slice.to_vec();
 
-		assert!(success == 0 || success == 1);
-		if success == 0 {
-			let result = String::from_utf8(buf_intern).expect("error should be valid string");
+		// 0 - success, 1 - failure
+		assert!(result == 0 || result == 1);
+		if result == 1 {
+			let result = String::from_utf8_lossy(&buf_intern).into_owned();
 			bail!(ImportCallbackError(result));
+		}
+		if found_here.is_null() {
+			bail!(ImportCallbackError(
+				"import callback did not set found_here".to_owned()
+			));
 		}
 
 		let found_here_raw = unsafe { CStr::from_ptr(found_here) };
